@@ -1,12 +1,149 @@
 /-
-  Props.C02 — the theorems that decide property C02 (see DESIGN.md §7).
+  Props.C02 — projections apply element-wise, drop nulls, keep order and stop
+  where specified (DESIGN.md §7, C02).  Evaluation side here; where a
+  projection's right-hand side ends is a parser fact (C03).
 -/
 import Props.Tables
+import Jmes.Interp
 namespace Jmes.Props
-open Jmes
+open Jmes Jmes.Interp
 
 theorem C02_generated_table_ok : TableOK Generated.table = true := generated_table_ok
 theorem C02_generated_sigs_ok : SigsOK Generated.functionTable Spec.functionTable = true := generated_sigs_ok
 theorem C02_generated_lex_ok : LexTablesOK Model.lexTables Spec.lexTables = true := generated_lex_ok
+
+variable {N : Type} [NumOps N]
+
+omit [NumOps N] in
+/-- The projection loop is `filterMap`: apply the right-hand side to each
+    element in order and drop null results. -/
+theorem projectLoop_eq (f : Val N → Res (Val N)) (g : Val N → Val N) (xs : List (Val N))
+    (h : ∀ x ∈ xs, f x = .ok (g x)) : projectLoop f xs = .ok (dropNulls (xs.map g)) := by
+  induction xs with
+  | nil => rfl
+  | cons x xs ih =>
+    simp only [projectLoop, h x (by simp), ih (fun y hy => h y (by simp [hy])), List.map_cons]
+    cases g x <;> simp [dropNulls]
+
+omit [NumOps N] in
+theorem dropNulls_spec (xs : List (Val N)) : dropNulls xs = xs.filter (fun v => match v with | .null => false | _ => true) := by
+  induction xs with
+  | nil => rfl
+  | cons x xs ih => cases x <;> simp [dropNulls, ih]
+
+/-- List projection `left[*] rhs`, and every projection built on it (slice,
+    flatten): on an array, the right-hand side of each element in document
+    order, nulls dropped. -/
+theorem C02_list_projection (ft : List FnEntry) (l r : Node N) (d : Val N) (xs : List (Val N)) (g : Val N → Val N)
+    (hl : eval ft l d = .ok (.arr xs)) (hr : ∀ x ∈ xs, eval ft r x = .ok (g x)) :
+    eval ft (.proj l r) d = .ok (.arr (dropNulls (xs.map g))) := by
+  simp only [eval, hl, projectLoop_eq (eval ft r) g xs hr]
+
+/-- … and null when the left-hand side is not an array. -/
+theorem C02_projection_of_non_array (ft : List FnEntry) (l r : Node N) (d v : Val N)
+    (hl : eval ft l d = .ok v) (hv : ∀ xs, v ≠ .arr xs) : eval ft (.proj l r) d = .ok .null := by
+  cases v with
+  | arr xs => first | exact absurd rfl (hv xs) | simp only [eval, hl]
+  | obj kvs => first | exact absurd rfl (hv kvs) | simp only [eval, hl]
+  | _ => simp only [eval, hl]
+
+/-- Object wildcard: the right-hand side of each member value, nulls dropped:
+    exactly one entry per member whose projected value is non-null (the model
+    lists members in key order; Go's order is unspecified). -/
+theorem C02_object_wildcard (ft : List FnEntry) (l r : Node N) (d : Val N) (kvs : List (Bytes × Val N)) (g : Val N → Val N)
+    (hl : eval ft l d = .ok (.obj kvs)) (hr : ∀ kv ∈ kvs, eval ft r kv.2 = .ok (g kv.2)) :
+    eval ft (.valueProj l r) d = .ok (.arr (dropNulls ((kvs.map (·.2)).map g))) := by
+  have : ∀ x ∈ kvs.map (·.2), eval ft r x = .ok (g x) := by
+    intro x hx
+    obtain ⟨kv, hkv, rfl⟩ := List.mem_map.mp hx
+    exact hr kv hkv
+  simp only [eval, hl, projectLoop_eq (eval ft r) g _ this]
+
+theorem C02_object_wildcard_of_non_object (ft : List FnEntry) (l r : Node N) (d v : Val N)
+    (hl : eval ft l d = .ok v) (hv : ∀ kvs, v ≠ .obj kvs) : eval ft (.valueProj l r) d = .ok .null := by
+  cases v with
+  | arr xs => first | exact absurd rfl (hv xs) | simp only [eval, hl]
+  | obj kvs => first | exact absurd rfl (hv kvs) | simp only [eval, hl]
+  | _ => simp only [eval, hl]
+
+omit [NumOps N] in
+/-- Flatten splices exactly one level: array elements are replaced by their
+    elements, everything else is kept; nested arrays inside those are untouched. -/
+theorem flattenOnce_spec (xs : List (Val N)) :
+    flattenOnce xs = xs.flatMap (fun v => match v with | .arr ys => ys | v => [v]) := by
+  induction xs with
+  | nil => rfl
+  | cons x xs ih => cases x <;> simp [flattenOnce, ih]
+
+theorem C02_flatten (ft : List FnEntry) (e : Node N) (d : Val N) (xs : List (Val N)) (h : eval ft e d = .ok (.arr xs)) :
+    eval ft (.flatten e) d = .ok (.arr (xs.flatMap (fun v => match v with | .arr ys => ys | v => [v]))) := by
+  simp only [eval, h, flattenOnce_spec]
+
+theorem C02_flatten_of_non_array (ft : List FnEntry) (e : Node N) (d v : Val N)
+    (h : eval ft e d = .ok v) (hv : ∀ xs, v ≠ .arr xs) : eval ft (.flatten e) d = .ok .null := by
+  cases v with
+  | arr xs => exact absurd rfl (hv xs)
+  | _ => simp only [eval, h]
+
+omit [NumOps N] in
+theorem filterLoop_eq (cond rhs : Val N → Res (Val N)) (cf rf : Val N → Val N) (xs : List (Val N))
+    (hc : ∀ x ∈ xs, cond x = .ok (cf x)) (hr : ∀ x ∈ xs, rhs x = .ok (rf x)) :
+    filterLoop cond rhs xs = .ok (dropNulls ((xs.filter (fun x => !(cf x).isFalse)).map rf)) := by
+  induction xs with
+  | nil => rfl
+  | cons x xs ih =>
+    have ih' := ih (fun y hy => hc y (by simp [hy])) (fun y hy => hr y (by simp [hy]))
+    simp only [filterLoop, hc x (by simp), hr x (by simp), ih']
+    by_cases hf : (cf x).isFalse
+    · simp [hf]
+    · simp only [hf, Bool.not_false, if_true, List.filter_cons, List.map_cons]
+      cases hrx : rf x <;> simp [dropNulls]
+
+/-- Filter projection: keeps exactly the elements whose condition is
+    true-like, then applies the right-hand side and drops nulls. -/
+theorem C02_filter_projection (ft : List FnEntry) (l r c : Node N) (d : Val N) (xs : List (Val N)) (cf rf : Val N → Val N)
+    (hl : eval ft l d = .ok (.arr xs)) (hc : ∀ x ∈ xs, eval ft c x = .ok (cf x)) (hr : ∀ x ∈ xs, eval ft r x = .ok (rf x)) :
+    eval ft (.filterProj l r c) d = .ok (.arr (dropNulls ((xs.filter (fun x => !(cf x).isFalse)).map rf))) := by
+  have := filterLoop_eq (eval ft c) (eval ft r) cf rf xs hc hr
+  simp only [eval, hl, this]
+
+theorem C02_filter_of_non_array (ft : List FnEntry) (l r c : Node N) (d v : Val N)
+    (hl : eval ft l d = .ok v) (hv : ∀ xs, v ≠ .arr xs) : eval ft (.filterProj l r c) d = .ok .null := by
+  cases v with
+  | arr xs => first | exact absurd rfl (hv xs) | simp only [eval, hl]
+  | obj kvs => first | exact absurd rfl (hv kvs) | simp only [eval, hl]
+  | _ => simp only [eval, hl]
+
+/-- An error on the left of any projection is an error of the projection
+    (never null, never a partial result). -/
+theorem C02_left_error_propagates (ft : List FnEntry) (l r c : Node N) (d : Val N) (e : Err) (hl : eval ft l d = .err e) :
+    eval ft (.proj l r) d = .err e ∧ eval ft (.valueProj l r) d = .err e ∧
+    eval ft (.filterProj l r c) d = .err e ∧ eval ft (.flatten l) d = .err e := by
+  simp only [eval, hl, and_self]
+
+omit [NumOps N] in
+/-- An error on the right-hand side for some element is an error of the projection. -/
+theorem C02_element_error_propagates (f : Val N → Res (Val N)) (xs : List (Val N)) (x : Val N) (hx : x ∈ xs)
+    (hf : ∀ v, f x ≠ .ok v) : ∀ ys, projectLoop f xs ≠ .ok ys := by
+  induction xs with
+  | nil => cases hx
+  | cons y ys ih =>
+    intro zs
+    rcases List.mem_cons.mp hx with rfl | hmem
+    · simp only [projectLoop]
+      cases hfx : f x with
+      | ok v => exact absurd hfx (hf v)
+      | err e => simp
+      | panic p => simp
+    · simp only [projectLoop]
+      cases f y with
+      | ok v =>
+        simp only []
+        cases hp : projectLoop f ys with
+        | ok ws => exact absurd hp (ih hmem ws)
+        | err e => simp
+        | panic p => simp
+      | err e => simp
+      | panic p => simp
 
 end Jmes.Props
